@@ -33,6 +33,10 @@ type c19Op struct {
 type c19Case struct {
 	U   lookupUniverse `json:"u"`
 	Ops []c19Op        `json:"ops"`
+	// PreOn: graph ?a already exists, holding the triples Pre, in the store the
+	// wrapper is placed over (it was not created through the wrapper)
+	PreOn bool  `json:"pre_on,omitempty"`
+	Pre   []int `json:"pre,omitempty"`
 }
 
 var c19Names = []string{"?a", "?b"}
@@ -76,7 +80,13 @@ func genC19(t *rapid.T) c19Case {
 		qs = append(qs, q{call, sib})
 	}
 	n := rapid.IntRange(3, 40).Draw(t, "nops")
-	c.Ops = append(c.Ops, c19Op{Op: "new", G: 0})
+	if rapid.IntRange(0, 9).Draw(t, "preexisting") < 3 {
+		c.PreOn = true
+		c.Pre = rapid.SliceOfN(rapid.IntRange(0, len(c.U.Triples)-1), 0, 6).Draw(t, "pre")
+		c.Ops = append(c.Ops, c19Op{Op: "get", G: 0}, c19Op{Op: "get", G: 0})
+	} else {
+		c.Ops = append(c.Ops, c19Op{Op: "new", G: 0})
+	}
 	for i := 0; i < n; i++ {
 		var op c19Op
 		switch k := rapid.IntRange(0, 29).Draw(t, "opk"); {
@@ -121,7 +131,7 @@ type c19Handle struct {
 
 func checkC19(ctx *pbt.Ctx, c c19Case) error {
 	bg := context.Background()
-	W := memoization.New(memory.NewStore())
+	inner := memory.NewStore()
 	P := memory.NewStore()
 	real := make([]*triple.Triple, len(c.U.Triples))
 	for i, s := range c.U.Triples {
@@ -130,6 +140,25 @@ func checkC19(ctx *pbt.Ctx, c c19Case) error {
 	var handles []c19Handle
 	alive := map[string]int{}
 	gen := 0
+	if c.PreOn {
+		ctx.Label("wrapper-over-populated-store")
+		for _, st := range []storage.Store{inner, P} {
+			g, err := st.NewGraph(bg, c19Names[0])
+			if err != nil {
+				return fmt.Errorf("harness: %v", err)
+			}
+			var b []*triple.Triple
+			for _, i := range c.Pre {
+				b = append(b, real[i%len(real)])
+			}
+			if err := g.AddTriples(bg, b); err != nil {
+				return fmt.Errorf("harness: %v", err)
+			}
+		}
+		gen++
+		alive[c19Names[0]] = gen
+	}
+	W := memoization.New(inner)
 	seenRead := map[string]bool{}    // (generation, call, opt) read before (cache candidates)
 	seenCallOpt := map[string]bool{} // call read with some option before
 	wroteSince := map[int]bool{}
